@@ -162,7 +162,7 @@ def setup_pipeline():
     setup()
     if P:
         return P
-    mods = load_instrumented(["myst_parser.parsers.docutils_"])
+    mods = load_instrumented(["myst_parser.parsers.docutils_"], using=R)
     P["docutils_"] = mods["myst_parser.parsers.docutils_"]
     return P
 
